@@ -3,6 +3,7 @@ import PyYetiVerif.Props.C12Multi
 import PyYetiVerif.Props.C12Acc
 import PyYetiVerif.Props.C12Best
 import PyYetiVerif.Props.C12Foreign
+import PyYetiVerif.Props.C12Comments
 #print axioms PyYetiVerif.C12.table_rows_ok
 #print axioms PyYetiVerif.C12.fixed_branch_width
 #print axioms PyYetiVerif.C12.fixed_branch_width_rat
@@ -61,3 +62,7 @@ import PyYetiVerif.Props.C12Foreign
 #print axioms PyYetiVerif.C12.rdcards_foreign_boundary
 #print axioms PyYetiVerif.C12.rdcards_written_cards
 #print axioms PyYetiVerif.C12.rdcards_assembled_written
+#print axioms PyYetiVerif.C12.kept_comments_placement
+#print axioms PyYetiVerif.C12.kept_comments_rules
+#print axioms PyYetiVerif.C12.kept_comments_foreign_card
+#print axioms PyYetiVerif.C12.kept_comments_erase
